@@ -143,6 +143,10 @@ def cases(tier, seed):
         for ok in ('none', 'j2', 'j3', 'rep', 'shuf'):
             yield ['big', nie, ok]
     # real processes: "the remaining layers run in fresh subprocesses"
+    # real processes, -x -j2: a layer fails while a sibling process is in the
+    # middle of its layer - every process tears down what it set up
+    for v in (0, 1):
+        yield ['cli', 'xj', v, 'j2']
     for shape in CLI_SHAPES:
         nl = len(CLI_SHAPES[shape][0])
         for nie in range(nl):
@@ -172,6 +176,10 @@ CLI_SHAPES = {
 
 
 def run_cli_case(shape, nie, mode):
+    if shape == 'xj':
+        from vt.props import c16
+        return [(v['clause'], {'part': 'cli', 'shape': 'xj'}, v['detail']) for v in c16.run_xj_case(nie)
+                if v['clause'] == 'layer_not_torn_down']
     lay, owners = CLI_SHAPES[shape]
     layers = []
     for i, (n, bs) in enumerate(lay):
